@@ -40,12 +40,12 @@ RULE = ('type-directed: an exception class is drawn from a catalogue generated f
         'classes over Exception/builtin/GlomError/TypeMatchError/KeyboardInterrupt bases with store-all, no-super, '
         'prefix, len (arity-changing), const, reversing, keyword-only, fixed-arity constructors, falsy instances, '
         'two-level subclasses), built with arguments that fit its signature (sometimes .args reassigned '
-        'afterwards); a spec tree of tuple/dict/list/Spec/Coalesce nodes is generated with the faulting callable '
+        'afterwards); a spec tree of tuple/dict/list/Spec/First(key)/Coalesce nodes is generated with the faulting callable '
         'at a random position and mostly-returning siblings; a one-edit mutation stream moves the fault, plants a '
         'failing path / Match before it, or wraps it in a Coalesce whose skip_exc does / does not match; keywords '
         'from default in {absent, sentinel} x skip_exc in {absent, the class, a base, an unrelated class, a tuple, '
         '(), GlomError} x glom_debug in {absent, False, True}; thorough also enumerates catalogue x keyword '
-        'matrix x 7 contexts. non-trivial = an exception reached glom()\'s handler and (it was raised below the '
+        'matrix x 8 contexts. non-trivial = an exception reached glom()\'s handler and (it was raised below the '
         'top level, or a keyword was given, or its class is not a plain store-all builtin); '
         'distinct = distinct (classes, exception, spec, settings)')
 TRUSTED = ['generated user classes do not define __copy__/__reduce__/__new__; args are None/int/str/bytes/opaque '
@@ -227,6 +227,9 @@ def compile_spec(sp, env):
         return (env['ok'], [compile_spec(sp['lst'], env)])
     if 'frame' in sp:
         return glom.Spec(compile_spec(sp['frame'], env))
+    if 'first' in sp:       # the key of First / Iter().first, as a tuple step (run on the items of the list)
+        k = compile_spec(sp['first'], env)
+        return (env['ok'], glom.First(k)) if env['first_style'](sp) else (env['ok'],) + glom.Iter().first(k)
     if 'coal' in sp:
         kw = {}
         if sp.get('skip') is not None:
@@ -272,7 +275,8 @@ def run_impl(case):
     def fault(t):
         raise orig
 
-    spec = compile_spec(case['spec'], {'ok': ok, 'fault': fault, 'cls': cls_of})
+    spec = compile_spec(case['spec'], {'ok': ok, 'fault': fault, 'cls': cls_of,
+                                       'first_style': lambda sp: len(json.dumps(sp)) % 2 == 0})
     rec = None
     if case.get('recorder'):
         rec = Recorder(spec)
@@ -450,8 +454,10 @@ def gen_ctx(rng, inner, depth, mro, noise):
             sp = {'dct': pre + [sp] + post}
         elif k < 0.62:
             sp = {'lst': sp}
-        elif k < 0.72:
+        elif k < 0.70:
             sp = {'frame': sp}
+        elif k < 0.78:
+            sp = {'first': sp}
         else:
             skip, _ = gen_skip(rng, mro)
             cpre = [rng.choice(['badPath', 'badMatch'])] * rng.choice([0, 0, 1])
@@ -471,7 +477,7 @@ def has_internal(sp):
     for k in ('tup', 'dct'):
         if k in sp:
             return any(has_internal(x) for x in sp[k])
-    return has_internal(sp.get('lst') or sp.get('frame'))
+    return has_internal(sp.get('lst') or sp.get('frame') or sp.get('first'))
 
 
 def depth_of_fault(sp, d=0):
@@ -479,7 +485,7 @@ def depth_of_fault(sp, d=0):
         return d
     if isinstance(sp, str):
         return None
-    kids = sp.get('tup') or sp.get('dct') or sp.get('coal') or [sp.get('lst') or sp.get('frame')]
+    kids = sp.get('tup') or sp.get('dct') or sp.get('coal') or [sp.get('lst') or sp.get('frame') or sp.get('first')]
     for x in kids:
         if x is None:
             continue
@@ -575,6 +581,7 @@ def catalogue():
 CONTEXTS = ['fault',
             {'tup': ['ok', 'fault', 'ok']},
             {'dct': ['ok', {'lst': {'frame': 'fault'}}]},
+            {'tup': ['ok', {'first': 'fault'}]},
             {'coal': ['fault'], 'skip': None, 'dflt': False},
             {'coal': ['badPath', 'fault', 'ok'], 'skip': ['Exception'], 'dflt': False},
             {'tup': [{'coal': ['badMatch', 'fault'], 'skip': ['BaseException'], 'dflt': False}]},
@@ -583,7 +590,7 @@ CONTEXTS = ['fault',
 
 def exhaustive(tier):
     cat = catalogue()
-    ctxs = CONTEXTS if tier == 'thorough' else CONTEXTS[:2]
+    ctxs = CONTEXTS if tier == 'thorough' else [CONTEXTS[0], CONTEXTS[1], CONTEXTS[3]]
     step = 1 if tier == 'thorough' else 7
     i = 0
     for classes, exc in cat:
@@ -651,7 +658,7 @@ def shrink(case):
         return c
     sp = case['spec']
     if not isinstance(sp, str):
-        kids = sp.get('tup') or sp.get('dct') or sp.get('coal') or [sp.get('lst') or sp.get('frame')]
+        kids = sp.get('tup') or sp.get('dct') or sp.get('coal') or [sp.get('lst') or sp.get('frame') or sp.get('first')]
         for x in kids:
             if x is not None:
                 yield with_spec(x)
